@@ -629,11 +629,25 @@ def r_fill(E):
         _FRAME_HELPERS[0] = finder
         nodes = nodes_through_helpers(fn, find_function=finder, depth=2) if finder else list(ast.walk(fn))
         frames = set()
+        lists_of_frames = set()
         for _ in range(3):
             for n in nodes:
                 if isinstance(n, ast.Assign) and len(n.targets) == 1 and isinstance(n.targets[0], ast.Name) \
                         and _is_frame(n.value, frames):
                     frames.add(n.targets[0].id)
+                # a list of frames, and the parameters of a folding lambda over it: reduce(lambda a, b: a.add(b, …), frames)
+                if isinstance(n, ast.Assign) and len(n.targets) == 1 and isinstance(n.targets[0], ast.Name) \
+                        and isinstance(n.value, (ast.ListComp, ast.List)):
+                    elts = [n.value.elt] if isinstance(n.value, ast.ListComp) else n.value.elts
+                    if elts and all(_is_frame(e, frames) for e in elts):
+                        lists_of_frames.add(n.targets[0].id)
+                if isinstance(n, ast.Call) and norm(n.func) in ("reduce", "functools.reduce") and len(n.args) >= 2 \
+                        and isinstance(n.args[0], ast.Lambda):
+                    xs = n.args[1]
+                    over_frames = (isinstance(xs, ast.Name) and xs.id in lists_of_frames) or (
+                        isinstance(xs, (ast.ListComp, ast.GeneratorExp)) and _is_frame(xs.elt, frames))
+                    if over_frames:
+                        frames |= {a.arg for a in n.args[0].args.args}
         for n in nodes:
             if isinstance(n, ast.Call) and isinstance(n.func, ast.Attribute) and n.func.attr in ("add", "mul") \
                     and _is_frame(n.func.value, frames):
